@@ -25,9 +25,13 @@ def err(v):
 
 
 def deref_all(v):
-    while isinstance(v, Ref):
-        v = v.get()
-    return v
+    while True:
+        if isinstance(v, Ref):
+            v = v.get()
+        elif type(v) is LazyVal:
+            v = v.force()
+        else:
+            return v
 
 
 def is_some(eng, o):
@@ -585,6 +589,8 @@ def values_eq(eng, a, b):
     if is_sym(a) or is_sym(b):
         if z3.is_bool(a) or z3.is_bool(b) or isinstance(a, bool) or isinstance(b, bool):
             return (z3.BoolVal(a) if isinstance(a, bool) else a) == (z3.BoolVal(b) if isinstance(b, bool) else b)
+        if (is_sym(a) and z3.is_int(a)) or (is_sym(b) and z3.is_int(b)):
+            return (a if not isinstance(a, int) else z3.IntVal(a)) == (b if not isinstance(b, int) else z3.IntVal(b))
         w = a.size() if is_sym(a) else b.size()
         return to_bv(a, w) == to_bv(b, w)
     if isinstance(a, Opaque) and isinstance(b, Opaque):
@@ -671,6 +677,10 @@ def minmax(eng, ci, a, want_max):
         return Struct(x.name, [z3.If(lt, Y, X) if want_max else z3.If(lt, X, Y)])
     if isinstance(x, int) and isinstance(y, int):
         return max(x, y) if want_max else min(x, y)
+    if (is_sym(x) and z3.is_int(x)) or (is_sym(y) and z3.is_int(y)):
+        X = x if not isinstance(x, int) else z3.IntVal(x)
+        Y = y if not isinstance(y, int) else z3.IntVal(y)
+        return z3.If(X < Y, Y, X) if want_max else z3.If(X < Y, X, Y)
     if ty not in INTW:
         raise Unsupported('min/max on %s' % ty)
     w = INTW[ty]
